@@ -17,12 +17,26 @@
       `C02Spill.spill_correct`, plus `before_ovf`: too little room under the stack limit makes
       `spillBefore` fail with exactly the stack-overflow failure).
     * `genProg_correct_stage1`: the special case without re-entrant calls.
+    * `genProg_correct_fp` (stage 4, complete): frame-pointer convention, by-value parameters
+      (`proto`, `frame_dig`, `retsub` clean-up); final worlds equal up to the parameter slots
+      (the source semantics keeps parameters in scratch cells; `Proofs/C02GenPres.lean`: those
+      cells survive every allowed call).
+    * `genProg_correct_ref` (stage 3, scratch convention, complete) and `genProg_correct_fp_ref`
+      (stage 3 under frame pointers, complete): by-reference parameters under the by-reference
+      discipline R9 of `Models/FragmentR.lean`; `Proofs/C02GenValid.lean` shows that every value
+      dereferenced by the generated `loads` / `stores` is a slot number `< 256`,
+      `Proofs/C02GenPresV.lean` is the footprint theorem under that discipline.
+    * `genProg_correct_dyn_partial` (PARTIAL): `vloads` / `vstores` outside the discipline; the range
+      failures of `loads` / `stores` are permitted deviations.
     * the proof is by induction on the fuel of `Src.eval`, which decreases at every call, so
       *recursion itself needs no extra argument*: `sound_all` holds for every program for which the
-      ops around each `callsub` do their job (`FrameProvider`).
-  NOT PROVED (stages 3 and 4): by-reference parameters; the frame-pointer convention (`fp = true`);
-  `WideRatio`; the link from an accepted `Check.validateProg` certificate (whose program holds the
-  *reachable* routines only) to `genProg`.
+      ops around each `callsub` do their job (`FrameProvider`) and the invariants of the
+      activations survive calls (`CallInv`, `CallEntry`).
+    * the link from an accepted `Check.validateProg` certificate to the real TEAL:
+      `Proofs/C02Compile.lean`.
+  NOT PROVED: `WideRatio`; `Return` in operand position (false: `ret_in_operand_counterexample`);
+  by-reference accesses outside the discipline without the range-failure caveat (false:
+  `ref_discipline_counterexample`).
   The final world is equal **up to the representation of the scratch space** (`SameW`: same
   content slot by slot, every other component equal).  Literal equality is false as soon as a
   routine has two parameters (`scratch_order_counterexample` below): `Src.eval` binds parameters
@@ -33,6 +47,7 @@ import PyTealV.Proofs.C02GenProg
 import PyTealV.Proofs.C02GenSpill
 import PyTealV.Proofs.C02GenPres
 import PyTealV.Proofs.C02GenValid
+import PyTealV.Proofs.C02GenPresV
 namespace PyTealV.Proofs.C02Gen
 open PyTealV PyTealV.Avm PyTealV.Src PyTealV.Comp PyTealV.Models.Fragment PyTealV.Models.FragmentR
 open PyTealV.Check (isSimple)
@@ -98,27 +113,27 @@ theorem frameProvider_of_progOK {P : PCtx} (hP : ProgOK P) : FrameProvider P := 
   | main _ _ _ _ _ _ => exact frame_nospill (by simp [mainCfg]) (fun x hx => by cases hx) hb
   | @sub f0 sd fr cs' hpg hfp hsd hr0 hcs hpr hign hinv hdev hprot hact =>
     exact frame_of_sub (hP f0 sd hsd (RoutOK.present (.sub hpg hfp hsd hr0 hcs hpr hign hinv hdev hprot hact))) hsd hign hb hlen
-  | @subFp f0 sd fr cs' st0 σc hpg hfp hsd hr0 hcs hpr hbase hl0 hh hign hinv hdev hprot =>
-    exact frame_of_sub (hP f0 sd hsd (RoutOK.present (.subFp hpg hfp hsd hr0 hcs hpr hbase hl0 hh hign hinv hdev hprot)))
+  | @subFp f0 sd fr cs' st0 σc hpg hfp hsd hr0 hcs hpr hbase hl0 hh hign hinv hdev hprot hact =>
+    exact frame_of_sub (hP f0 sd hsd (RoutOK.present (.subFp hpg hfp hsd hr0 hcs hpr hbase hl0 hh hign hinv hdev hprot hact)))
       hsd hign hb hlen
 
 /-- scratch-slot convention without the by-reference discipline: activations carry no invariant on
     the source world -/
 theorem callInv_scratch {P : PCtx} (hfp : P.fp = false) (hs : P.strict = false) : CallInv P := by
   intro X cfg K cur hR f sd st w1 fuel r3 w3 _ _ _ _ _ _
-  have hsref : P.sref = false := by simp [PCtx.sref, hs]
   cases hR with
-  | main _ _ _ hinv => rw [hinv, PCtx.vinv, hsref]; trivial
-  | sub _ _ _ _ _ _ _ hinv => rw [hinv, PCtx.vinv, hsref]; trivial
+  | main _ _ _ hinv => rw [hinv, PCtx.vinv, hs]; trivial
+  | sub _ _ _ _ _ _ _ hinv => rw [hinv, PCtx.vinv, hs]; trivial
   | subFp _ hfp' => rw [hfp] at hfp'; cases hfp'
 
 /-- outside the by-reference discipline the callee's invariant holds at its entry by construction -/
-theorem callEntry_plain {P : PCtx} (hP : ProgOK P) (hs : P.sref = false) : CallEntry P := by
+theorem callEntry_plain {P : PCtx} (hP : ProgOK P) (hs : P.strict = false) : CallEntry P := by
   intro X cfg K cur hR f sd args bc rc n st w w1 fuel hsd hpres _ hlen _ _
   unfold calleeInv
+  have hv : ∀ A w, P.vinv A w := by intro A w; rw [PCtx.vinv, hs]; trivial
   cases hfp : P.fp with
-  | false => simp only [Bool.false_eq_true, if_false, PCtx.vinv, hs]; trivial
-  | true => simp only [if_true]; exact pInv_bindW hlen (hP f sd hsd hpres).pnodup
+  | false => simp only [Bool.false_eq_true, if_false]; exact hv _ _
+  | true => simp only [if_true]; exact ⟨pInv_bindW hlen (hP f sd hsd hpres).pnodup, hv _ _⟩
 
 theorem vinv_nil (P : PCtx) (w : World) : P.vinv [] w := by
   unfold PCtx.vinv
@@ -132,68 +147,82 @@ theorem vinv_nil (P : PCtx) (w : World) : P.vinv [] w := by
 def PresentT (P : PCtx) (g : Nat) : Prop := ∀ sd, findSub P.p g = some sd → Present P g
 
 theorem valCtx_of {P : PCtx}
-    (hsubs : ∀ f sd, findSub P.p f = some sd → Present P f → subOkC false P.p sd P.dyn true = true)
-    (hcl : ∀ f sd, findSub P.p f = some sd → Present P f → ∀ g, g ∈ callsOf sd.body → PresentT P g) :
-    ValCtx P.p P.dyn (PresentT P) := by
+    (hsubs : ∀ f sd, findSub P.p f = some sd → Present P f → subOkC P.fp P.p sd P.dyn true = true)
+    (hcl : ∀ f sd, findSub P.p f = some sd → Present P f →
+      ∃ l, (subK P.fp P.p sd P.dyn true).okCalls = some l ∧ ∀ g, g ∈ l → PresentT P g) :
+    ValCtx P.p P.fp P.dyn (PresentT P) := by
   refine ⟨fun g hT sd hsd => ?_⟩
   have hpres := hT sd hsd
   have hok := hsubs g sd hsd hpres
   simp only [subOkC, Bool.and_eq_true, Bool.not_true, Bool.false_or, List.all_eq_true, Bool.not_eq_true',
     List.contains_eq_mem, decide_eq_false_iff_not] at hok
-  exact ⟨hok.1.1.1.1.1.1.1.1, hcl g sd hsd hpres, nodupB_nodup _ hok.1.1.1.1.1.1.2, hok.2⟩
+  exact ⟨hok.1.1.1.1.1.1.1.1, hcl g sd hsd hpres, nodupB_nodup _ hok.1.1.1.1.1.1.2, hok.2.1⟩
 
-theorem kv_of {P : PCtx} (hs : P.sref = true) (hmain : ∀ g, g ∈ callsOf P.p.main → PresentT P g)
-    (hcl : ∀ f sd, findSub P.p f = some sd → Present P f → ∀ g, g ∈ callsOf sd.body → PresentT P g)
+theorem mainK_okCalls {fp p dyn} : (mainK fp p dyn true).okCalls = some (callsOf p.main) := rfl
+
+theorem kv_of {P : PCtx} (hs : P.strict = true) (hmain : ∀ g, g ∈ callsOf P.p.main → PresentT P g)
+    (hcl : ∀ f sd, findSub P.p f = some sd → Present P f →
+      ∃ l, (subK P.fp P.p sd P.dyn true).okCalls = some l ∧ ∀ g, g ∈ l → PresentT P g)
     {X cfg K cur} (hR : RoutOK P X cfg K cur) : KV P.p (PresentT P) X.act K := by
-  obtain ⟨hstr, hfp⟩ := P.sref_iff.mp hs
   have hpres := fun f (h : cur = some f) => RoutOK.present (h ▸ hR)
+  have hkref := hR.kref hs
   cases hR with
   | main =>
-    rw [hstr, hfp]
-    exact ⟨rfl, rfl, rfl, rfl, rfl, ⟨_, rfl, hmain⟩, fun v hv => by cases hv⟩
-  | @sub f sd fr cs' _ _ hsd _ _ _ _ _ _ _ hact =>
-    rw [hstr, hfp]
-    exact ⟨rfl, rfl, rfl, rfl, rfl, ⟨_, rfl, hcl f sd hsd (hpres f rfl)⟩, fun v hv => ⟨f, sd, hact, hsd, hv⟩⟩
-  | subFp _ hfp' => rw [hfp] at hfp'; cases hfp'
+    rw [hs] at hkref ⊢
+    exact ⟨mainK_strictB, mainK_callees, mainK_refAll, mainK_parAll, mainK_kinds, ⟨_, mainK_okCalls, hmain⟩, hkref⟩
+  | @sub f sd fr cs' _ _ hsd =>
+    rw [hs] at hkref ⊢
+    exact ⟨subK_strictB, subK_callees, subK_refAll, subK_parAll, subK_kinds, hcl f sd hsd (hpres f rfl), hkref⟩
+  | @subFp f sd fr cs' _ _ _ _ hsd =>
+    rw [hs] at hkref ⊢
+    exact ⟨subK_strictB, subK_callees, subK_refAll, subK_parAll, subK_kinds, hcl f sd hsd (hpres f rfl), hkref⟩
 
-theorem inv_eq_vset {P : PCtx} (hs : P.sref = true) {X cfg K cur} (hR : RoutOK P X cfg K cur) :
-    X.inv = VSet P.p X.act := by
-  obtain ⟨hstr, hfp⟩ := P.sref_iff.mp hs
-  cases hR with
-  | main _ _ _ hinv => rw [hinv, PCtx.vinv, hs]; rfl
-  | sub _ _ _ _ _ _ _ hinv => rw [hinv, PCtx.vinv, hs]; rfl
-  | subFp _ hfp' => rw [hfp] at hfp'; cases hfp'
-
-theorem calleeInv_eq_vset {P : PCtx} (hs : P.sref = true) (X : MCtx) (f : Nat) (sd : SubDef) (st : List Val) :
-    calleeInv P X f sd st = VSet P.p (f :: X.act) := by
-  obtain ⟨hstr, hfp⟩ := P.sref_iff.mp hs
-  unfold calleeInv
-  rw [hfp, PCtx.vinv, hs]
-  rfl
+theorem calleeInv_vset {P : PCtx} (hs : P.strict = true) {X : MCtx} {f : Nat} {sd : SubDef} {st : List Val} {w : World}
+    (h : calleeInv P X f sd st w) : VSet P.p (f :: X.act) w := by
+  unfold calleeInv at h
+  split at h
+  · have := h.2
+    rw [PCtx.vinv, hs] at this
+    exact this
+  · rw [PCtx.vinv, hs] at h
+    exact h
 
 /-- by-reference discipline: the reference cells of the caller's active set are valid again after
     the call (the callee only wrote through valid references) -/
-theorem callInv_ref {P : PCtx} (hs : P.sref = true) (hC : ValCtx P.p P.dyn (PresentT P))
-    (hkv : ∀ X cfg K cur, RoutOK P X cfg K cur → KV P.p (PresentT P) X.act K) : CallInv P := by
-  intro X cfg K cur hR f sd st w1 fuel r3 w3 hsd hallow hlen hev hinv hentry
-  rw [inv_eq_vset hs hR] at hinv ⊢
-  rw [calleeInv_eq_vset hs] at hentry
+theorem callInv_vpart {P : PCtx} (hs : P.strict = true) (hC : ValCtx P.p P.fp P.dyn (PresentT P))
+    (hkv : ∀ X cfg K cur, RoutOK P X cfg K cur → KV P.p (PresentT P) X.act K)
+    {X cfg K cur} (hR : RoutOK P X cfg K cur) {f : Nat} {sd : SubDef} {st : List Val} {w1 w3 : World} {fuel : Nat} {r3 : Res}
+    (hsd : findSub P.p f = some sd) (hallow : callAllowed K f = true)
+    (hev : eval ⟨P.cx, P.p, some f⟩ fuel sd.body (bindW sd st w1) = (r3, w3))
+    (hinv : X.inv w1) (hentry : calleeInv P X f sd st (bindW sd st w1)) :
+    VSet P.p X.act (restoreW (srcLocals P.p cur f) w1 w3) := by
+  have hinv' := hR.inv_vset hs hinv
+  have hentry' := calleeInv_vset hs hentry
   obtain ⟨l, hl, hlT⟩ := (hkv X cfg K cur hR).calls
   unfold callAllowed at hallow
   rw [hl] at hallow
   have hT : PresentT P f := hlT f (by simpa using hallow)
   obtain ⟨hwtb, hcallsb, _, _⟩ := hC.body f hT sd hsd
-  have hKb : KV P.p (PresentT P) (f :: X.act) (subK false P.p sd P.dyn true) :=
-    ⟨rfl, rfl, rfl, rfl, rfl, ⟨_, rfl, hcallsb⟩, fun v hv => ⟨f, sd, List.mem_cons_self .., hsd, hv⟩⟩
-  have h3 := (valid_all (cx := P.cx) hC fuel).ev (some f) sd.body _ r3 w3 _ false true _ _ hKb hwtb hev hentry
-  exact vset_restore hinv (h3.sub (fun g hg => List.mem_cons_of_mem _ hg))
+  have hKb : KV P.p (PresentT P) (f :: X.act) (subK P.fp P.p sd P.dyn true) :=
+    ⟨subK_strictB, subK_callees, subK_refAll, subK_parAll, subK_kinds, hcallsb,
+      fun v hv => ⟨f, sd, List.mem_cons_self .., hsd, by rw [subK_ref] at hv; exact hv⟩⟩
+  have h3 := (valid_all (cx := P.cx) hC fuel).ev (some f) sd.body _ r3 w3 _ false true _ _ hKb hwtb hev hentry'
+  exact vset_restore hinv' (h3.sub (fun g hg => List.mem_cons_of_mem _ hg))
+
+theorem callInv_ref {P : PCtx} (hs : P.strict = true) (hfp : P.fp = false) (hC : ValCtx P.p P.fp P.dyn (PresentT P))
+    (hkv : ∀ X cfg K cur, RoutOK P X cfg K cur → KV P.p (PresentT P) X.act K) : CallInv P := by
+  intro X cfg K cur hR f sd st w1 fuel r3 w3 hsd hallow hlen hev hinv hentry
+  have hv := callInv_vpart hs hC hkv hR hsd hallow hev hinv hentry
+  cases hR with
+  | main _ _ _ hi => rw [hi, PCtx.vinv, hs]; exact hv
+  | sub _ _ _ _ _ _ _ hi => rw [hi, PCtx.vinv, hs]; exact hv
+  | subFp _ hfp' => rw [hfp] at hfp'; cases hfp'
 
 /-- by-reference discipline: what a call passes for a by-reference parameter is a valid reference -/
-theorem callEntry_ref {P : PCtx} (hs : P.sref = true) (hC : ValCtx P.p P.dyn (PresentT P))
+theorem callEntry_ref {P : PCtx} (hP : ProgOK P) (hs : P.strict = true) (hC : ValCtx P.p P.fp P.dyn (PresentT P))
     (hkv : ∀ X cfg K cur, RoutOK P X cfg K cur → KV P.p (PresentT P) X.act K) : CallEntry P := by
   intro X cfg K cur hR f sd args bc rc n st w w1 fuel hsd hpres hw hlen hev hinv
-  rw [inv_eq_vset hs hR] at hinv
-  rw [calleeInv_eq_vset hs]
+  have hinv' := hR.inv_vset hs hinv
   have hK := hkv X cfg K cur hR
   have hw0 := hw
   simp only [wtR, Bool.and_eq_true] at hw
@@ -202,7 +231,96 @@ theorem callEntry_ref {P : PCtx} (hs : P.sref = true) (hC : ValCtx P.p P.dyn (Pr
   rw [hl] at hallow
   have hT : PresentT P f := hlT f (by simpa using hallow)
   obtain ⟨_, _, hpnd, hvals⟩ := hC.body f hT sd hsd
-  exact valid_entry (valid_all (cx := P.cx) hC fuel) hK hw0 hsd hpnd hvals hev hlen hinv
+  have hv := valid_entry (valid_all (cx := P.cx) hC fuel) hK hw0 hsd hpnd hvals hev hlen hinv'
+  unfold calleeInv
+  split
+  · exact ⟨pInv_bindW hlen (hP f sd hsd hpres).pnodup, by rw [PCtx.vinv, hs]; exact hv⟩
+  · rw [PCtx.vinv, hs]; exact hv
+
+/-- frame-pointer convention under the by-reference discipline: the parameter cells of the caller
+    are restored after a re-entrant call and untouched by any other call (`presV_all`), and the
+    reference cells stay valid (`callInv_vpart`) -/
+theorem callInv_fp_ref {P : PCtx} (hfp : P.fp = true) (hs : P.strict = true)
+    (hpnd : nodupB (allParamSlots P.p) = true)
+    (hsubs : ∀ f sd, findSub P.p f = some sd → Present P f → subOkC true P.p sd P.dyn true = true)
+    (hreach : ∀ f0 sd0, findSub P.p f0 = some sd0 → Present P f0 → ∀ g ∈ okCallsOf P.p sd0,
+      sd0.reenters.contains g = false → ∀ h ∈ reachSet P.p g, Present P h)
+    (hC : ValCtx P.p P.fp P.dyn (PresentT P))
+    (hkv : ∀ X cfg K cur, RoutOK P X cfg K cur → KV P.p (PresentT P) X.act K) : CallInv P := by
+  intro X cfg K cur hR f sd st w1 fuel r3 w3 hsd hallow hlen hev hinv hentry
+  have hv := callInv_vpart hs hC hkv hR hsd hallow hev hinv hentry
+  have hentry' := calleeInv_vset hs hentry
+  have hpnd' : (P.p.subs.flatMap (fun sd => sd.params.map (·.2))).Nodup := nodupB_nodup _ hpnd
+  cases hR with
+  | main _ _ _ hi => rw [hi, PCtx.vinv, hs]; exact hv
+  | sub _ hfp' => rw [hfp] at hfp'; cases hfp'
+  | @subFp f0 sd0 fr cs' st0 σc hpg hfp0 hsd0 hr0 hcs hpr hbase hl0 hh hign hi hdev0 hprot0 hact0 =>
+    have hpres0 : Present P f0 := RoutOK.present (.subFp hpg hfp0 hsd0 hr0 hcs hpr hbase hl0 hh hign hi hdev0 hprot0 hact0)
+    rw [hi] at hinv ⊢
+    refine ⟨?_, by rw [PCtx.vinv, hs]; exact hv⟩
+    replace hinv := hinv.1
+    have hmem0 : sd0 ∈ P.p.subs := List.mem_of_find?_eq_some hsd0
+    have hok0 := hsubs f0 sd0 hsd0 hpres0
+    simp only [subOkC, Bool.and_eq_true, List.all_eq_true, Bool.not_true, Bool.false_or, List.contains_eq_mem,
+      decide_eq_true_eq] at hok0
+    have hploc : ∀ kv ∈ sd0.params, kv.2 ∈ sd0.locals := hok0.1.2
+    intro pr hprm
+    have hs0 : pr.1 ∈ sd0.params.map (·.2) := (List.of_mem_zip hprm).1
+    obtain ⟨kv0, hkv0, hkv02⟩ := List.mem_map.mp hs0
+    -- the call is allowed: `f` is re-entrant for `f0`, or cannot reach it
+    simp only [callAllowed, subK, hfp, hs, if_true, okCallsOf, List.contains_eq_mem, decide_eq_true_eq, List.mem_filter,
+      Bool.or_eq_true, Bool.and_eq_true, Bool.not_eq_true', decide_eq_false_iff_not] at hallow
+    by_cases hre : sd0.reenters.contains f = true
+    · -- re-entrant: the cell is restored
+      simp only [srcLocals, hsd0, hre, if_true]
+      rw [restoreW_get, if_pos (hkv02 ▸ hploc kv0 hkv0)]
+      exact hinv pr hprm
+    · have hre' : sd0.reenters.contains f = false := by simpa using hre
+      simp only [srcLocals, hsd0, hre']
+      have hallow0 := hallow
+      obtain ⟨_, hdisj⟩ := hallow
+      rcases hdisj with hc | ⟨⟨hclosed, hfT⟩, hf0T⟩
+      · simp only [List.contains_eq_mem, decide_eq_true_eq] at hre; exact absurd hc hre
+      · -- `f` cannot reach `f0`: nothing writes the cell during the call
+        have hid0 := findSub_id hsd0
+        rw [hid0] at hf0T
+        simp only [closedSet, List.all_eq_true] at hclosed
+        have hCv : PresVCtx P.p P.dyn (sd0.params.map (·.2)) (reachSet P.p f) := by
+          refine ⟨fun s hs => ?_, fun g hg sdg hsg => ?_⟩
+          · obtain ⟨kv, hkv, rfl⟩ := List.mem_map.mp hs
+            exact mem_allParamSlots hmem0 hkv
+          · have hcg := hclosed g hg
+            rw [hsg] at hcg
+            simp only [List.all_eq_true, List.contains_eq_mem, decide_eq_true_eq] at hcg
+            have hmemg : sdg ∈ P.p.subs := List.mem_of_find?_eq_some hsg
+            have hokg := hsubs g sdg hsg (hreach f0 sd0 hsd0 hpres0 f
+              (by simp only [okCallsOf, List.mem_filter, Bool.or_eq_true, Bool.and_eq_true, List.contains_eq_mem,
+                    decide_eq_true_eq, Bool.not_eq_true', decide_eq_false_iff_not]; exact hallow0)
+              hre' g hg)
+            simp only [subOkC, Bool.and_eq_true, Bool.not_true, Bool.false_or, List.all_eq_true, Bool.not_eq_true',
+              List.contains_eq_mem, decide_eq_false_iff_not] at hokg
+            refine ⟨hokg.1.1.1.1.1.1.1.1, fun g' hg' => ?_, fun kv hkv hin => ?_,
+              nodupB_nodup _ hokg.1.1.1.1.1.1.2, hokg.2.1⟩
+            · simp only [okCallsOf, List.mem_filter] at hg'
+              exact hcg g' hg'.1
+            · have hne : sdg ≠ sd0 := by
+                intro heq
+                have := findSub_id hsg
+                rw [heq, hid0] at this
+                rw [← this] at hg
+                exact hf0T hg
+              obtain ⟨kv1, hkv1, hkv12⟩ := List.mem_map.mp hin
+              exact nodup_flatMap_disjoint (fun (sd : SubDef) => sd.params.map (·.2)) P.p.subs hpnd' sdg hmemg sd0 hmem0 hne
+                kv.2 (List.mem_map.mpr ⟨kv, hkv, rfl⟩) (hkv12 ▸ List.mem_map.mpr ⟨kv1, hkv1, rfl⟩)
+        obtain ⟨hwtf, hcallsf, hparf, _, _⟩ := hCv.body f hfT sd hsd
+        have hKb : KVT P.p (reachSet P.p f) (f :: X.act) (subK true P.p sd P.dyn true) :=
+          ⟨⟨rfl, rfl, rfl, rfl, rfl, ⟨_, rfl, hcallsf⟩, fun v hv => ⟨f, sd, List.mem_cons_self .., hsd, hv⟩⟩, rfl⟩
+        have k := (keep_bindW_nc hparf st w1).trans
+          ((presV_all (cx := P.cx) hCv fuel).ev (some f) sd.body _ r3 w3 _ false true _ _ hKb hwtf hev hentry').1
+        have := k pr.1 hs0
+        show getSlot (restoreW [] w1 w3).scratch pr.1 = pr.2
+        rw [restoreW_get, if_neg (by simp), this]
+        exact hinv pr hprm
 
 /-! ### the whole program -/
 
@@ -519,12 +637,14 @@ theorem genProg_correct_ref (version : Nat) (p : Prog) (hf : inFragmentC false p
     intro g sd hsd
     obtain ⟨r, _, hl⟩ := genSubs_lookup p.subs Pg.subs (genProg_subs hg) g sd hsd
     simp only [Present, P, hl, Option.isSome_some]
-  have hC : ValCtx p true (PresentT P) :=
-    valCtx_of (P := P) (fun f sd hsd _ => hfr.1.1.2 sd (List.mem_of_find?_eq_some hsd)) (fun _ _ _ _ g _ => hall g)
+  have hC : ValCtx p false true (PresentT P) :=
+    valCtx_of (P := P) (fun f sd hsd _ => hfr.1.1.2 sd (List.mem_of_find?_eq_some hsd))
+      (fun _ sd _ _ => ⟨callsOf sd.body, rfl, fun g _ => hall g⟩)
   have hkv : ∀ X cfg K cur, RoutOK P X cfg K cur → KV P.p (PresentT P) X.act K :=
-    fun X cfg K cur hR => kv_of (P := P) rfl (fun g _ => hall g) (fun _ _ _ _ g _ => hall g) hR
-  have key := genProg_correct_of P hP (callPresent_of_gen cx hg) (callInv_ref rfl hC hkv) (callEntry_ref rfl hC hkv)
-    (genProg_main hg) hwm w0 fuel
+    fun X cfg K cur hR => kv_of (P := P) rfl (fun g _ => hall g)
+      (fun _ sd _ _ => ⟨callsOf sd.body, rfl, fun g _ => hall g⟩) hR
+  have key := genProg_correct_of P hP (callPresent_of_gen cx hg) (callInv_ref rfl rfl hC hkv)
+    (callEntry_ref hP rfl hC hkv) (genProg_main hg) hwm w0 fuel
   revert key
   cases Src.runProg cx p fuel w0 with
   | done v w => intro ⟨n, h⟩; exact ⟨n, only_ovf h⟩
@@ -561,10 +681,65 @@ theorem genProg_correct_fp (version : Nat) (p : Prog) (hf : inFragmentC true p =
   have hP := progOK_of_gen (strict := false) cx hg hf
   have key := genProg_correct_of ⟨cx, p, Pg, version, true, false, false⟩ hP
     (callPresent_of_gen cx hg)
-    (callInv_fp (P := ⟨cx, p, Pg, version, true, false, false⟩) rfl rfl hf (fun f sd hsd => by
+    (callInv_fp (P := ⟨cx, p, Pg, version, true, false, false⟩) rfl rfl rfl hf (fun f sd hsd => by
       obtain ⟨r, _, hl⟩ := genSubs_lookup p.subs Pg.subs (genProg_subs hg) f sd hsd
       simp only [Present, hl, Option.isSome_some]))
     (callEntry_plain hP rfl) (genProg_main hg) hwm w0 fuel
+  revert key
+  cases Src.runProg cx p fuel w0 with
+  | done v w => intro ⟨n, h⟩; exact ⟨n, only_ovf h⟩
+  | fail f => cases f <;> (intro key; exact key)
+  | outOfFuel => intro _; trivial
+
+/-- **By-reference parameters under the frame-pointer convention (stages 3 + 4).**
+
+    For every program of the fragment `inFragmentC true p true true` — as `genProg_correct_fp`, with
+    parameters of either kind under the by-reference discipline R9 (`genProg_correct_ref`):
+    by-value parameters live in the stack frame (`frame_dig`), by-reference arguments are copied
+    from the frame into their scratch slots by the prologue (`proto; frame_dig i; store v; …`) and
+    dereferenced with `loads` / `stores`.  Final worlds are equal up to the representation of the
+    scratch space and up to the **by-value** parameter slots (`SameW (allValSlots p)`); the only
+    permitted deviation is the operand-stack limit. -/
+theorem genProg_correct_fp_ref (version : Nat) (p : Prog) (hf : inFragmentC true p true true = true)
+    (Pg : PProg) (hg : genProg version true p = .ok Pg)
+    (cx : Ctx) (w0 : World) (fuel : Nat) :
+    match Src.runProg cx p fuel w0 with
+    | .done v w => ∃ n, (∃ w', SameW (allValSlots p) w w' ∧ runP cx Pg n { world := w0 } = .done v w')
+                    ∨ runP cx Pg n { world := w0 } = .fail (.logic "stack overflow")
+    | .fail (.unmodelled _) => True
+    | .fail _ => ∃ n f, runP cx Pg n { world := w0 } = .fail f
+    | .outOfFuel => True := by
+  have hfr := hf
+  simp only [inFragmentC, Bool.and_eq_true, List.all_eq_true, Bool.not_true, Bool.false_or] at hfr
+  have hwm : mainOkC true p true true = true := hfr.1.1.1
+  let P : PCtx := ⟨cx, p, Pg, version, true, true, true⟩
+  have hP : ProgOK P := progOK_of_gen cx hg hf
+  have hall : ∀ g, PresentT P g := by
+    intro g sd hsd
+    obtain ⟨r, _, hl⟩ := genSubs_lookup p.subs Pg.subs (genProg_subs hg) g sd hsd
+    simp only [Present, P, hl, Option.isSome_some]
+  have hsubs : ∀ f sd, findSub P.p f = some sd → Present P f → subOkC true P.p sd P.dyn true = true :=
+    fun f sd hsd _ => hfr.1.1.2 sd (List.mem_of_find?_eq_some hsd)
+  have hC : ValCtx p true true (PresentT P) :=
+    valCtx_of (P := P) hsubs (fun _ sd _ _ => ⟨okCallsOf p sd, rfl, fun g _ => hall g⟩)
+  have hkv : ∀ X cfg K cur, RoutOK P X cfg K cur → KV P.p (PresentT P) X.act K :=
+    fun X cfg K cur hR => kv_of (P := P) rfl (fun g _ => hall g)
+      (fun _ sd _ _ => ⟨okCallsOf p sd, rfl, fun g _ => hall g⟩) hR
+  have hreach : ∀ f0 sd0, findSub P.p f0 = some sd0 → Present P f0 → ∀ g ∈ okCallsOf P.p sd0,
+      sd0.reenters.contains g = false → ∀ h ∈ reachSet P.p g, Present P h := by
+    intro f0 sd0 hsd0 _ g hg hre h hh
+    have hg' := hg
+    simp only [okCallsOf, List.mem_filter, Bool.or_eq_true, Bool.and_eq_true] at hg'
+    rcases hg'.2 with hc | ⟨⟨hclosed, _⟩, _⟩
+    · rw [hre] at hc; cases hc
+    · simp only [closedSet, List.all_eq_true] at hclosed
+      have := hclosed h hh
+      cases hsh : findSub P.p h with
+      | none => rw [hsh] at this; cases this
+      | some sdh => exact hall h sdh hsh
+  have key := genProg_correct_of P hP (callPresent_of_gen cx hg)
+    (callInv_fp_ref (P := P) rfl rfl hfr.2 hsubs hreach hC hkv) (callEntry_ref hP rfl hC hkv)
+    (genProg_main hg) hwm w0 fuel
   revert key
   cases Src.runProg cx p fuel w0 with
   | done v w => intro ⟨n, h⟩; exact ⟨n, only_ovf h⟩
@@ -734,6 +909,15 @@ def refRecProg : Prog :=
 example : inFragmentC false refRecProg true true = true := by decide
 example : ∃ w, Src.runProg {} refRecProg 40 = .done (.u 3) w := ⟨_, rfl⟩
 example : (match genProg 6 false refRecProg with
+    | .ok Pg => (match runP {} Pg 150 {} with | .done v _ => v == .u 3 | _ => false)
+    | .error _ => false) = true := by decide +kernel
+
+/-! the same programs under the frame-pointer convention (`genProg_correct_fp_ref`): the prologue of
+    `inc` is `proto 1 0; frame_dig -1; store 1` -/
+example : inFragmentC true refProg true true = true := by decide
+example : ∃ Pg w, genProg 8 true refProg = .ok Pg ∧ runP {} Pg 200 {} = .done (.u 8) w := ⟨_, _, rfl, rfl⟩
+example : inFragmentC true refRecProg true true = true := by decide
+example : (match genProg 8 true refRecProg with
     | .ok Pg => (match runP {} Pg 150 {} with | .done v _ => v == .u 3 | _ => false)
     | .error _ => false) = true := by decide +kernel
 
